@@ -111,8 +111,7 @@ class Ctx:
             fcntl.flock(lk, fcntl.LOCK_EX)
             if regen:
                 regen()
-            if not os.path.exists(os.path.join(COQ, "Makefile")):
-                sh(["coq_makefile", "-f", "_CoqProject", "-o", "Makefile"], cwd=COQ, check=True)
+            sh([sys.executable, os.path.join(VERIF, "tools", "mkcoqproject.py")], check=True)
             rc, out, err = sh(["make", "-j16", props_module + ".vo"], cwd=COQ, timeout=timeout)
             if rc == 0:
                 # unconditional fresh compile of the property file itself
